@@ -152,6 +152,11 @@ Fixpoint ns_walk (scopes : list (list str)) (evs : list xev) : bool :=
   end.
 Definition ns_ok (evs : list xev) : bool := ns_walk [] evs.
 (* a `root` document in the namespace `ns`: the first event opens an unprefixed `root` whose xmlns attribute is ns *)
+(* the namespace names, as literals from the TTML recommendation (TTML1 section 5.1: the TT namespace and the TT Style
+   namespace).  The specification owns them; proofs/DfxpSkelRootFacts.v shows that the writer model uses exactly these *)
+Definition spec_ttml_ns : str := lit "http://www.w3.org/ns/ttml".
+Definition spec_tts_ns : str := lit "http://www.w3.org/ns/ttml#styling".
+
 Definition root_in_ns (root ns : str) (evs : list xev) : bool :=
   match evs with
   | EOpen n attrs :: _ => str_eqb n root && existsb (fun kv => str_eqb (fst kv) xmlns_s && str_eqb (snd kv) ns) attrs
